@@ -29,12 +29,24 @@ def cases(tier, variants):
     if tier == "quick":
         for n in (1, 2):
             yield from F.convex_cases(n, variants, (1, 3, 10))
+        for z in ("lo", "up", "deg"):
+            yield from F.convex_cases(2, variants, (3,), fams=("qp",), hesses=("rot2",),
+                                      extra=dict(zero=z))
+        for far in (2e3, 1e6):
+            yield from F.convex_cases(2, variants, (3,), fams=("qp", "quart"),
+                                      hesses=("rot4",), boxes=("free", "lo", "up"),
+                                      extra=dict(far=far))
         # a thin slice of the tilings so that larger n is exercised on every change
         yield from F.tiled_cases(6, 2, variants, [("rot2", 4)], fams=("qp",))
     else:
         for n in (1, 2):
             yield from F.convex_cases(n, variants, (1, 2, 3, 5, 10))
         yield from F.convex_cases(3, variants, (1, 2, 5))
+        for z in ("lo", "up", "deg"):
+            yield from F.convex_cases(2, variants, (1, 3, 10), extra=dict(zero=z))
+        for far in (2e3, 1e6):
+            yield from F.convex_cases(2, variants, (1, 3, 10), boxes=("free", "lo", "up"),
+                                      extra=dict(far=far))
         for n in (4, 6, 8, 12):
             yield from F.tiled_cases(n, 2, variants,
                                      [("rot2", 1), ("rot2", 4), ("rot2", 10), ("rot4", 10),
